@@ -410,6 +410,7 @@ class Runner:
         self.bin = xvc_bin
         self.toks, self.real = [], []         # model tokens / real canonical outcomes (same length)
         self.fail = []                        # oracle failures: (what, detail)
+        self.errs = []                        # the first failed invocations (diagnosis of transient failures)
         self.stats = {"invocations": 0, "recorded_deps": 0, "run_ok": 0, "roundtrips": 0, "refusals": 0, "overwrites": 0,
                       "dep_kinds": {}, "out_kinds": {}, "whens": {}, "recorded_kinds": {}, "strings": set()}
         self.rnd = 1000 + rng_seed % 1000
@@ -417,7 +418,10 @@ class Runner:
 
     def x(self, *args, stdin=None):
         self.stats["invocations"] += 1
-        return self.repo.xvc("--skip-git", *args, stdin=stdin, timeout=90)
+        r = self.repo.xvc("--skip-git", *args, stdin=stdin, timeout=300)
+        if r.failed and len(self.errs) < 8:
+            self.errs.append({"args": [str(a)[:60] for a in args[:6]], "rc": r.rc, "timed_out": r.timed_out, "err": r.err[-300:]})
+        return r
 
     def nrnd(self):
         self.rnd += 7
@@ -819,7 +823,7 @@ def run(chk, replay=None):
         corpus = os.path.join(C.ROOT, "corpus", "C14")
         for f in sorted(os.listdir(corpus)) if os.path.isdir(corpus) else []:
             cases.append(("corpus/" + f, json.load(open(os.path.join(corpus, f)))["input"]))
-        n = 30 if tier == "quick" else 300
+        n = 30 if tier == "quick" else 200
         for i in range(n):
             cases.append(("gen%d" % i, gen_case(rng, i, tier, cursor)))
     workers = max(4, min(12, C.NPROC - 2))
@@ -837,7 +841,31 @@ def run(chk, replay=None):
     strings = set()
     reported = 0
     shrunk_once = False
-    for (label, case), rn, out in zip(cases, runners, outs):
+    # Every alarm must reproduce: the property is deterministic in the history, so a case that raised an
+    # alarm (oracle, model difference) is executed a second time, alone, and only alarms seen in both
+    # executions count.  (A starved machine makes single invocations fail: fork/thread limits, timeouts.)
+    transient = []
+    confirmed = {}
+    for idx, ((label, case), rn, out) in enumerate(zip(cases, runners, outs)):
+        d = compare_model(rn, out)
+        if not rn.fail and d is None:
+            continue
+        rn2 = run_one(xvc_bin, case, chk.seed + idx)
+        _, o2 = C.run_lines(model, [model_line(fixed, rn2)])
+        out2 = o2[0] if o2 else "<missing>"
+        d2 = compare_model(rn2, out2)
+        both = [f for f in rn.fail if any(g[0] == f[0] for g in rn2.fail)]
+        if len(both) < len(rn.fail) or (d is not None and d2 is None):
+            transient.append({"case": label, "not_reproduced": [f[0] for f in rn.fail if f not in both][:5],
+                              "model_difference_not_reproduced": bool(d is not None and d2 is None),
+                              "failed_invocations": rn.errs[:4]})
+        confirmed[idx] = (both, d if d2 is not None else None)
+    chk.cov["transient_alarms_not_reproduced"] = transient[:10]
+    for idx, ((label, case), rn, out) in enumerate(zip(cases, runners, outs)):
+        if idx in confirmed:
+            rn.fail, dconf = confirmed[idx]
+        else:
+            dconf = None
         st = rn.stats
         for k in ("dep_kinds", "out_kinds", "whens", "recorded_kinds"):
             for a, b in st[k].items():
@@ -867,7 +895,7 @@ def run(chk, replay=None):
             klass = "rename-onto-existing-name" if (what.startswith(P53_WHAT) and accepted_colliding_rename(rs)) else None
             chk.fail("oracle", what, {"input": shrunk, "original_case": label, "detail": detail, "all_failures": [w for w, _ in rn.fail][:10],
                                       "kind": "impl-history"}, name="rt", klass=klass)
-        d = compare_model(rn, out)
+        d = dconf
         if d is not None and (not rn.fail or klass is not None) and reported < 3:    # (the model has the known class too)
             reported += 1
             msg, i = d
